@@ -890,11 +890,24 @@ func rulePollDeliversOnce(r *Run, p *Prog, rule string) {
 	f = p.View(f, "", nil)
 	var hdr *ssa.BasicBlock
 	var next *ssa.Call
+	nexts := map[ssa.Value]bool{}
 	eachInstr(f, func(b *ssa.BasicBlock, i int, in ssa.Instruction) {
 		if c, ok := in.(*ssa.Call); ok && c.Call.IsInvoke() && c.Call.Method.Name() == "Next" {
-			next = c
+			nexts[c] = true
+			if next == nil || !isLoopHeaderOrBody(f, c.Block()) {
+				next = c
+			}
 		}
 	})
+	// `for d := Next(); d != nil; d = Next()`: the call inside the loop locates it
+	for v := range nexts {
+		c := v.(*ssa.Call)
+		for _, b := range f.Blocks {
+			if isLoopHeader(b) && loopBlocks(b)[c.Block()] {
+				next = c
+			}
+		}
+	}
 	if next != nil {
 		for _, b := range f.Blocks {
 			if isLoopHeader(b) && loopBlocks(b)[next.Block()] {
@@ -931,7 +944,15 @@ func rulePollDeliversOnce(r *Run, p *Prog, rule string) {
 			}
 			break
 		}
-		return v == ssa.Value(next)
+		if ph, ok := v.(*ssa.Phi); ok {
+			for _, e := range ph.Edges {
+				if !nexts[e] {
+					return false
+				}
+			}
+			return len(ph.Edges) > 0
+		}
+		return nexts[v]
 	}
 	bad, badPos, n := "", "", 0
 	for _, ip := range paths {
@@ -978,6 +999,15 @@ func ruleMultiKeepsEveryWriter(r *Run, p *Prog, rule string) {
 	f = p.View(f, "", nil)
 	lwT := p.NamedType("", "LevelWriter")
 	isDestAppend := func(in ssa.Instruction) bool {
+		// lwriters = append(lwriters, x)   or   lwriters[i] = x
+		if st, ok := in.(*ssa.Store); ok {
+			if ia, ok := st.Addr.(*ssa.IndexAddr); ok {
+				if sl, ok := ia.X.Type().Underlying().(*types.Slice); ok && lwT != nil && types.Identical(sl.Elem(), lwT) {
+					return true
+				}
+			}
+			return false
+		}
 		c, ok := in.(*ssa.Call)
 		if !ok || builtinName(&c.Call) != "append" {
 			return false
@@ -1114,7 +1144,7 @@ func ruleConstructorSetsConfigOnly(r *Run, p *Prog, rule string) {
 func ruleCallerHookPinsItsCount(r *Run, p *Prog, rule string) {
 	f := p.Method("", "Context", "CallerWithSkipFrameCount")
 	nh := p.Func("", "newCallerHook")
-	if !r.Anchor(f != nil && nh != nil, rule, "Context.CallerWithSkipFrameCount / newCallerHook") {
+	if !r.Anchor(f != nil, rule, "Context.CallerWithSkipFrameCount") {
 		return
 	}
 	fv := p.View(f, "keep-newCallerHook", func(g *ssa.Function) bool { return g == nh })
@@ -1125,8 +1155,14 @@ func ruleCallerHookPinsItsCount(r *Run, p *Prog, rule string) {
 		}
 	}
 	pins := func(in ssa.Instruction) bool {
+		// newCallerHook(n), or the hook value built in place: callerHook{<field>: n}
+		if st, ok := in.(*ssa.Store); ok && cnt != nil && st.Val == ssa.Value(cnt) {
+			if fa, ok := st.Addr.(*ssa.FieldAddr); ok && typeIs(derefType(fa.X.Type()), modPath, "callerHook") {
+				return true
+			}
+		}
 		c, ok := in.(*ssa.Call)
-		return ok && staticCallee(&c.Call) == nh && cnt != nil && len(c.Call.Args) == 1 && c.Call.Args[0] == ssa.Value(cnt)
+		return ok && nh != nil && staticCallee(&c.Call) == nh && cnt != nil && len(c.Call.Args) == 1 && c.Call.Args[0] == ssa.Value(cnt)
 	}
 	skip, path := pathExists(fv, nil, isReturn, pins, nil)
 	r.Ob(rule, FnName(f)+"/pins-its-argument", p.Pos(f.Pos()), !skip, true, tern(!skip, "every path registers newCallerHook(skipFrameCount) with the method's own argument", "CallerWithSkipFrameCount can return without registering a hook built from its argument (e.g. reusing the default hook when the argument equals the global at that moment): the logger's frame count then follows later changes of the global and the caller field names a frame above or below the call site"+pathHint(p, path)))
@@ -1184,7 +1220,18 @@ func ruleFieldHandlersUnconditional(r *Run, p *Prog, rule string) {
 			r.Ob(rule, originFnName(f, c)+"/field-added-whenever-present", p.Pos(c.Pos()), bad == "", true, tern(bad == "", "the field is added under 'has a key/value' conditions only", "the handler adds its field only when "+bad+" holds — a negative lookup outcome, not 'there is a value': requests that already carry the value (a pre-assigned id, a second handler of the same kind) get no field on their events"))
 		})
 	}
-	if n < 10 {
-		r.Fail(rule, "field-handlers/sites", "-", fmt.Sprintf("only %d UpdateContext sites found in hlog request closures", n))
+	if n < 1 {
+		// handlers may share one site through a private constructor; that each handler reaches one
+		// is ISOL adds-its-field
+		r.Fail(rule, "field-handlers/sites", "-", "no UpdateContext site found in hlog request closures")
 	}
+}
+
+func isLoopHeaderOrBody(f *ssa.Function, b *ssa.BasicBlock) bool {
+	for _, h := range f.Blocks {
+		if isLoopHeader(h) && loopBlocks(h)[b] {
+			return true
+		}
+	}
+	return false
 }
